@@ -81,9 +81,18 @@ func (p *sdPlan) String() string {
 	return fmt.Sprintf("I/O fault: %s #%d of %s fails", op, p.at, store)
 }
 
-func drawShutdownPlan(t *rapid.T, percent int) *sdPlan {
+// shallow: the shutdown of a restart after the recovery usually has little to write (early operations, first stores).
+func drawShutdownPlan(t *rapid.T, percent int, shallow bool) *sdPlan {
 	if percent <= 0 || rapid.IntRange(0, 99).Draw(t, "shutdownFault") >= percent {
 		return nil
+	}
+	if shallow {
+		return &sdPlan{
+			nth:        rapid.SampledFrom([]int{0, 0, 1, 1, 1, 2, 2, 3}).Draw(t, "shutdownFaultStore"),
+			op:         rapid.SampledFrom([]string{"tableCreate", "tableWrite", "tableClose", "manifestWrite", "manifestWrite", "", ""}).Draw(t, "shutdownFaultOp"),
+			at:         rapid.SampledFrom([]int{0, 0, 0, 0, 1, 1, 2}).Draw(t, "shutdownFaultAt"),
+			persistent: rapid.IntRange(0, 2).Draw(t, "shutdownFaultPersistent") != 0,
+		}
 	}
 	p := &sdPlan{
 		nth:        rapid.SampledFrom([]int{0, 0, 1, 1, 1, 2, 2, 3}).Draw(t, "shutdownFaultStore"),
